@@ -274,10 +274,27 @@ type vC46Gen struct {
 	msigs   []vC46Msig
 	maxIdx  uint64 // size of dtab
 	wrong   int
+	// nul: this case also tries the creation password followed by 0x00 bytes (accepted by the
+	// real code: finding c46_password_trailing_nul); otherwise such passwords are avoided
+	nul    bool
+	nulPws int
+}
+
+// what HMAC (inside scrypt's PBKDF2) sees of a short password: trailing zero bytes are padding
+func vC46HmacKey(pw []byte) string {
+	n := len(pw)
+	for n > 0 && pw[n-1] == 0 {
+		n--
+	}
+	return string(pw[:n])
 }
 
 func (g *vC46Gen) wrongPw(pw []byte) []byte {
 	g.wrong++
+	if g.nul && g.r.Intn(3) == 0 {
+		g.nulPws++
+		return append(append([]byte{}, pw...), make([]byte, 1+g.r.Intn(3))...)
+	}
 	for {
 		var c []byte
 		switch g.r.Intn(5) {
@@ -297,7 +314,7 @@ func (g *vC46Gen) wrongPw(pw []byte) []byte {
 		default:
 			c = []byte{}
 		}
-		if string(c) != string(pw) {
+		if vC46HmacKey(c) != vC46HmacKey(pw) {
 			return c
 		}
 	}
@@ -431,16 +448,22 @@ func TestVerifC46(t *testing.T) {
 	r := vNewRand(0xC46)
 	kinds := map[string]int{}
 	errs := map[string]int{}
-	var totalOps, totalWrong, totalGen, blankPw, givenMDK int
+	var totalOps, totalWrong, totalGen, blankPw, givenMDK, nulCases, nulPws int
 
 	for c := 0; c < nCases; c++ {
 		dir := filepath.Join(base, fmt.Sprintf("c%d", c))
-		g := &vC46Gen{r: r}
+		g := &vC46Gen{r: r, nul: c%5 == 0}
+		if g.nul {
+			nulCases++
+		}
 		// wallet 1
 		pw1 := r.Bytes(1 + r.Intn(10))
 		if r.Intn(6) == 0 {
 			pw1 = []byte{}
 			blankPw++
+		}
+		if c == 0 {
+			pw1 = []byte("hunter2")
 		}
 		var given crypto.MasterDerivationKey
 		if r.Intn(2) == 0 {
@@ -448,6 +471,9 @@ func TestVerifC46(t *testing.T) {
 			givenMDK++
 		}
 		w1 := vC46NewWallet(t, dir, 1, []byte("w0"), pw1, given)
+		for i := 0; i < 4; i++ {
+			g.foreign = append(g.foreign, r.Bytes(32))
+		}
 		// operations on the handle before Init
 		for i, n := 0, r.Intn(4); i < n; i++ {
 			switch r.Intn(6) {
@@ -460,9 +486,25 @@ func TestVerifC46(t *testing.T) {
 			case 3:
 				w1.opCheckPw(g.pw(w1, 50))
 			case 4:
-				w1.opImport(r.Bytes(32), false)
+				// (may succeed: in a nul case the Init above can have opened the wallet)
+				w1.opImport(g.foreign[r.Intn(len(g.foreign))], false)
 			default:
 				w1.opExport(r.Bytes(32), g.pw(w1, 50))
+			}
+		}
+		if c == 0 {
+			// replay of the witness of C46_wrong_password_bytes_refuted on the real code
+			nul1, nul2 := []byte("hunter2\x00"), []byte("hunter2\x00\x00")
+			w1.opInit([]byte("hunter2x"))
+			w1.opInit(nul2)
+			if a, ok := w1.opGen(false); ok {
+				w1.hp = 1
+				w1.opExport(a, nul2)
+				w1.opExport(a, pw1)
+				w1.opExportMDK(nul2)
+				w1.opExportMDK(pw1)
+				w1.opRename([]byte("w9"), nul1)
+				w1.opDelete(a, nul2)
 			}
 		}
 		w1.opInit(pw1)
@@ -478,9 +520,6 @@ func TestVerifC46(t *testing.T) {
 			nW = 3
 		}
 		g.maxIdx = uint64(nOps*nW + 16)
-		for i := 0; i < 4; i++ {
-			g.foreign = append(g.foreign, r.Bytes(32))
-		}
 		var pks []crypto.PublicKey
 		for i := 0; i < 3; i++ {
 			var pk crypto.PublicKey
@@ -553,11 +592,13 @@ func TestVerifC46(t *testing.T) {
 			totalGen += w.kinds["gen"] - w.errs["nomnemonic"]
 		}
 		totalWrong += g.wrong
+		nulPws += g.nulPws
 		out.Line(vT(line...))
 		os.RemoveAll(dir)
 	}
 	vStats(map[string]interface{}{
 		"cases": nCases, "ops_per_wallet": nOps, "operations": totalOps, "wrong_password_ops": totalWrong, "generate_calls": totalGen,
 		"op_kinds": kinds, "error_classes": errs, "blank_password_wallets": blankPw, "given_mdk_wallets": givenMDK,
+		"cases_with_nul_padded_passwords": nulCases, "nul_padded_password_ops": nulPws,
 	})
 }
